@@ -27,6 +27,28 @@ class _BadHooks:
         return None
 
 
+import functools as _ft  # noqa: E402
+
+
+class _WrappedSyncHooks:
+    """not awaitable either: a plain function that merely carries a functools.wraps link to an async one (what a careless decorator produces)"""
+    async def _real(self, directive_args, next_resolver, parent, args, ctx, info):
+        return await next_resolver(parent, args, ctx, info)
+
+    @_ft.wraps(_real)
+    def on_field_execution(self, directive_args, next_resolver, parent, args, ctx, info):
+        return "not awaited"
+
+
+class _PartialSyncHooks:
+    """a functools.partial around a plain function"""
+    def _plain(self, tag, directive_args, next_resolver, parent, args, ctx, info):
+        return None
+
+    def __init__(self):
+        self.on_field_execution = _ft.partial(self._plain, "t")
+
+
 class _MyScalar:
     def coerce_output(self, v):
         return v
@@ -39,6 +61,12 @@ class _MyScalar:
 
 
 def try_build(sdl, impl_scalar=True, bad_hook=False, dir_impl=True):
+    if bad_hook in ("wrapped", "partial"):
+        return _try_build(sdl, impl_scalar, {"wrapped": _WrappedSyncHooks, "partial": _PartialSyncHooks}[bad_hook](), dir_impl)
+    return _try_build(sdl, impl_scalar, _BadHooks() if bad_hook else _Hooks(), dir_impl)
+
+
+def _try_build(sdl, impl_scalar, hooks, dir_impl):
     """-> None when create_engine raised (expected), else the engine"""
     COUNTER[0] += 1
     name = "c12_%d" % COUNTER[0]
@@ -48,7 +76,7 @@ def try_build(sdl, impl_scalar=True, bad_hook=False, dir_impl=True):
     impl_scalar = impl_scalar and "scalar My" in text
     if dir_impl:
         try:
-            Directive("d", schema_name=name)(_BadHooks() if bad_hook else _Hooks())
+            Directive("d", schema_name=name)(hooks)
         except Exception as e:     # the decorator itself may refuse a non-awaitable hook: that is "no engine" too
             observe("directive refused at registration", repr(e))
             return None
@@ -142,7 +170,9 @@ CATALOGUE = [
 ]
 SPECIAL = [("scalar without implementation", OK_BASE + "scalar My", {"impl_scalar": False}), ("scalar without implementation (used)", "scalar My type Query { a: My }", {"impl_scalar": False}),
            ("directive hook not awaitable", OK_BASE + "directive @d on FIELD_DEFINITION\ntype T { x: Int @d }", {"bad_hook": True}),
-           ("directive hook not awaitable (unused directive)", OK_BASE + "directive @d on FIELD", {"bad_hook": True})]
+           ("directive hook not awaitable (unused directive)", OK_BASE + "directive @d on FIELD", {"bad_hook": True}),
+           ("directive hook not awaitable: sync function carrying functools.wraps of an async one", OK_BASE + "directive @d on FIELD_DEFINITION\ntype T { x: Int @d }", {"bad_hook": "wrapped"}),
+           ("directive hook not awaitable: functools.partial of a sync function", OK_BASE + "directive @d on FIELD", {"bad_hook": "partial"})]
 FILES_CASES = [("undefined type across files", ["type Query { a: T }", "type U { x: Int }"]), ("duplicate type across files", ["type Query { a: Int } type T { x: Int }", "type T { y: Int }"]),
                ("missing interface field across files", ["type Query { a: Int } interface I { x: Int y: Int }", "type T implements I { x: Int }"])]
 NCAT = len(CATALOGUE)
